@@ -131,6 +131,19 @@ func (vc *VC) define(prefix string, s Sort, t Term) Term {
 	return n
 }
 
+// defineOpaque names a term with a declared constant plus an equation (instead of a
+// define-fun macro), so that the name survives the solver's preprocessing and can be
+// matched by quantifier triggers such as (select row (+ off i)).
+func (vc *VC) defineOpaque(prefix string, s Sort, t Term) Term {
+	if len(t) < 24 && !strings.ContainsAny(t, " ") {
+		return t
+	}
+	n := vc.freshName(prefix)
+	vc.cmds = append(vc.cmds, fmt.Sprintf("(declare-const %s %s)", n, s), fmt.Sprintf("(assert (= %s %s))", n, t))
+	vc.defs[n] = t
+	return n
+}
+
 func (vc *VC) assume(guard, fact Term) {
 	f := imp(guard, fact)
 	if f == "true" {
@@ -210,6 +223,17 @@ func (vc *VC) recordAlloc(st *State, heapTerm Term) {
 	if _, seen := vc.heapAlloc[heapTerm]; !seen {
 		vc.heapAlloc[heapTerm] = a
 	}
+}
+
+// sortOfHeapTerm finds the sort of a heap version term (name@0, name!k or a defined alias).
+func (vc *VC) sortOfHeapTerm(t Term) Sort {
+	for name, s := range vc.heapSorts {
+		sn := sanitize(name)
+		if t == sn+"@0" || strings.HasPrefix(t, sn+"!") {
+			return s
+		}
+	}
+	return ""
 }
 
 // allocBound returns the allocation counter that bounds the references held in heapTerm.
